@@ -25,6 +25,7 @@ import (
 	"pgregory.net/rapid"
 
 	"verif/harness/core"
+	"verif/harness/e2e"
 	"verif/harness/gen"
 )
 
@@ -45,6 +46,10 @@ func fuzzProgram(t *testing.T, files []core.Source, class string) {
 	env, all := sharedEnv(t)
 	defer env.Release()
 	pc := &gen.ProgCase{Origin: "fuzz", Files: files}
+	if os.Getenv("VERIF_PROP") == "C19" {
+		fuzzBroken(t, rec, env, all, pc, class)
+		return
+	}
 	p := env.Load(pc.Files)
 	if !p.OK() {
 		rec.Reject()
@@ -69,6 +74,43 @@ func fuzzProgram(t *testing.T, files []core.Source, class string) {
 	default:
 		t.Skip("VERIF_PROP does not name a property this target decides")
 	}
+}
+
+// fuzzBroken (C19): inputs that do NOT parse or type-check cleanly. The check command hands such
+// files to the checkers with whatever tree and type information exists; an in-process run with the
+// tolerant loader is the fast filter, and only what the real binary then does with the same
+// package counts (checkC19 runs it): a crash trace instead of a clean failure is the violation.
+func fuzzBroken(t *testing.T, rec *core.Recorder, env *gen.Env, all *core.Set, pc *gen.ProgCase, class string) {
+	p := env.LoadTolerant(pc.Files)
+	if p == nil || len(p.Files) == 0 {
+		rec.Reject()
+		return
+	}
+	if p.OK() {
+		rec.Count("well-typed(not the subject):" + class)
+		return
+	}
+	rec.Count("broken:" + class)
+	crashed := ""
+	for i := range p.Files {
+		if _, crashes := all.RunAll(p, i); len(crashes) > 0 {
+			crashed = crashes[0].Checker + ": " + crashes[0].Value
+			break
+		}
+	}
+	rec.Nontrivial(pc.Key())
+	if crashed == "" {
+		rec.Eval()
+		return
+	}
+	rec.Count("in-process-crash")
+	ws := &e2e.Workspace{}
+	for _, f := range pc.Files {
+		ws.Files = append(ws.Files, e2e.File{Path: "alpha/" + f.Name, Text: f.Text})
+	}
+	ec := &errCase{Kind: "broken-package", FrontEnd: "go-critic", NPkgs: 1, WS: ws, Fault: "fuzz: " + crashed}
+	// the real binary is run by the driver's replay of this candidate, not inside the fuzz worker
+	rec.Candidate("C19|in-process|"+core.NormMsg(crashed), "in-process crash on a broken package: "+crashed, ec)
 }
 
 // fuzzWarm builds the shared environment and imports the standard packages the inputs use before
